@@ -88,7 +88,7 @@ func c08(r *core.Run) {
 	r.Rule("O1", "apply-then-publish: every publish is reached only after the paired apply handler ran or its absence was decided; no path from publish to apply; at most one publish on any path; a method whose Apply field exists contains the apply call", 10)
 	r.Rule("O2", "publish-then-listeners: every listener call is reached only after the publish", 5)
 	r.Rule("O3", "failed/empty applies publish nothing: the apply error is tested and its non-nil edge reaches only panic (no publish, no listener, no return); for change events the empty-argument edge and the empty-revert-map edge reach return without publish/listener", 7)
-	r.Rule("O4", "validity first: wrong resource type, negative index, reserved or malformed event names panic on edges that dominate apply and publish", 8)
+	r.Rule("O4", "validity first: wrong resource type, negative index, reserved or malformed event names panic on edges that dominate apply and publish; the name validator rejects the empty name, every rune below 33 or above 126 and '.', '*', '>', '?'", 8)
 	r.Rule("O5", "Event fields: Name equals the subject suffix; OldValues/removed Value/deleted Data flow from the apply handler's result; NewValues/added Value/created Data/Payload/Idx from the method's own arguments; Resource is the receiver", 15)
 	r.Rule("O6", "synchronous: no go statement in an event method before its publish, none in any function from which Conn.Publish is reachable, so one callback's messages reach the connection in program order", 5)
 
@@ -531,6 +531,8 @@ func c08Validity(r *core.Run, m *evMethod, res *core.FlowResult) {
 		}
 		if at, ok := panicsUnlessCall(fn, "isValidPart"); ok && domAll(at) {
 			r.OK("O4", fname, "panics-on:malformed-name", p.InstrPos(at), "a name rejected by the token validator panics before apply and publish")
+			// what "malformed" means: the validator's own rune facts (shared with C07.P2)
+			c07Validator(r, "O4", "", "isValidPart", true)
 		} else {
 			r.Bad("O4", fname, "panics-on:malformed-name", p.Pos(fn.Pos()), "the custom event name is not validated by the token validator on a panicking edge that dominates the publish")
 		}
